@@ -164,14 +164,15 @@ func TestVerifC25(t *testing.T) {
 		// ---- generate an event sequence
 		// Every second case is a ONE-HOT case: stats-only runs in which exactly one counter field is non-zero.
 		// The field and the sub-shape are not drawn at random but cycle with the case index (field = k mod #fields,
-		// sub-shape = (k div #fields) mod 4, first round = tail), so that every counter of zoekt.Stats gets a one-hot
-		// run that only Flush can deliver within the first 2*#fields cases, and all four sub-shapes within 8*#fields.
+		// sub-shape = (k div #fields) mod 5, first round = tail), so that every counter of zoekt.Stats gets a one-hot
+		// run that only Flush can deliver within the first 2*#fields cases, and the sub-shapes tail / minimal / period /
+		// then-file within 8*#fields (= 144 < the 160 cases of the quick tier for the 18 counters of today).
 		shape := r.Intn(7)
 		onehot, ohShape := -1, ""
 		if ci%2 == 1 && len(fields) > 0 {
 			k := ci / 2
 			onehot = k % len(fields)
-			ohShape = []string{"onehot-tail", "onehot-whole", "onehot-period", "onehot-then-file"}[(k/len(fields))%4]
+			ohShape = []string{"onehot-tail", "onehot-minimal", "onehot-period", "onehot-then-file", "onehot-whole"}[(k/len(fields))%5]
 			shape = 7
 		}
 		nev := 1 + r.Intn(8)
@@ -297,17 +298,32 @@ func TestVerifC25(t *testing.T) {
 				} else {
 					addOneHotRun(1+r.Intn(5), true)
 				}
+			case "onehot-minimal": // the smallest non-zero aggregate: the stream is ONE event with value 1 in one counter
+				var s zoekt.Stats
+				reflect.ValueOf(&s).Elem().Field(fields[onehot]).SetInt(1)
+				events = append(events, &zoekt.SearchResult{Stats: s, Progress: zoekt.Progress{Priority: vfC25GenPri(r), MaxPendingPriority: vfC25GenPri(r)}})
 			case "onehot-whole": // the run is the whole stream
-				if r.Chance(25) {
+				if r.Chance(40) {
 					addOneHotRun(1+r.Intn(250), true)
-				} else if r.Chance(40) {
-					addOneHotRun(1, false)
 				} else {
 					addOneHotRun(1+r.Intn(4), false)
 				}
-			case "onehot-period": // 99 / 100 / 101 one-hot events: the every-100th sampling point
+			case "onehot-period": // the every-100th sampling point
 				prefix()
-				addOneHotRun(99+r.Intn(3), r.Bool())
+				if onehot%3 == 1 {
+					// all-zero events up to the 99th stats-only event, so that the 100th is the FIRST non-zero one:
+					// the aggregate is empty before it and must be sent because of it
+					nso := 0
+					for _, e := range events {
+						if len(e.Files) == 0 {
+							nso++
+						}
+					}
+					addStatsRun(99-nso%100, 100)
+					addOneHotRun(1+r.Intn(3), false)
+				} else {
+					addOneHotRun(99+r.Intn(3), r.Bool()) // 99 / 100 / 101 one-hot events
+				}
 				if r.Chance(30) {
 					addFiles(false)
 				}
